@@ -18,6 +18,8 @@ THETAOPS_JOB = job("thetaops",
     args=lambda tier, seed, k, profile: ["--seed", seed, "--segments", 12 if tier == Q else 25, "--events", 150 + 30 * (k % 4),
                                          "--maxlgk", 7 if k % 3 else 8, "--directed", 1 if k == 0 else 0],
     nontrivial=ops_nontrivial,
+    # operand values (Sk events) are inputs taken as observed; the specification binds the fields of these events
+    bound_events=["UResult", "IResult", "AnotB", "Form", "Jaccard"],
 )
 
 THETAOPS_MC = [
